@@ -524,7 +524,7 @@ func Plan(nrand int, seed int64) []tf.Script {
 		}
 	}
 	for _, c := range tagged {
-		out = append(out, MakeScript(c.Name, "genesis", next(), 10, 0))
+		out = append(out, MakeScript(c.Name, "genesis", next(), 18, 0))
 	}
 	tperm := rng.Perm(len(tagged))
 	for i, j := range tperm {
